@@ -232,14 +232,17 @@ PROPS["C12"] = Prop(
     trusted=_slv_trust, histogram=_slv_hist,
     oracle_tokens=["ORACLE_CONFIGS_DISAGREE"])
 PROPS["C13"] = Prop(
-    "C13", family_driver=_slv_drv, model_families=set(),
-    generate=lambda rng, tier: G.gen_slv_cells(rng, tier),
+    "C13", family_driver=dict(_slv_drv, forcing=("drv_process", "plain"), jacobian=("drv_process", "plain")),
+    model_families={"forcing", "jacobian"},
+    generate=lambda rng, tier: (G.gen_slv_cells(rng, tier) + G.gen_forcing(rng, tier, 400 if tier == "quick" else 6000)
+                                + G.gen_jacobian(rng, tier, 400 if tier == "quick" else 6000)),
     rule="N in 1..3L+1 identical cells vs one cell (all cells bit-identical to each other, equal to the single cell up to "
          "the shared error norm), and the same cell among N-1 cells holding other data (rate constants bit-identical), "
-         "for L in {row-major,2,3,4}, both integrators, random configuration",
+         "for L in {row-major,2,3,4}, both integrators, random configuration; forcing and Jacobian of cells holding "
+         "unrelated data (zeros included) against the per-cell model of the two theorems (families of C01/C02)",
     trusted=_slv_trust, histogram=_slv_hist,
     oracle_tokens=["ORACLE_IDENTICAL_CELLS_DIFFER", "ORACLE_RATE_CONSTANT_DEPENDS", "ORACLE_N_IDENTICAL_CELLS",
-                   "ORACLE_CELL_COUNT_CHANGES_ERROR"])
+                   "ORACLE_CELL_COUNT_CHANGES_ERROR", "ORACLE_CELL_DEPENDS_ON_OTHER_CELLS"])
 PROPS["C11"] = Prop(
     "C11", family_driver=_slv_drv, model_families=set(),
     generate=lambda rng, tier: G.gen_slv_reuse(rng, tier),
